@@ -4,7 +4,7 @@ From SV Require Import Lib.Base Gen.Consts.
 From SV Require Import Model.Seq32 Model.Assembler Model.TcpBuf Model.TcpTypes Model.Tcp.
 From SV Require Import Proofs.TcpSendBase Proofs.TcpSendInv Proofs.TcpSendAck Proofs.TcpSendProc.
 From SV Require Import Proofs.TcpSendApi Proofs.TcpSendDisp Proofs.TcpSendDisp2 Proofs.TcpSendDisp3.
-From SV Require Import Proofs.TcpSendTrace Proofs.TcpSendProps.
+From SV Require Import Proofs.TcpSendTrace Proofs.TcpSendProps Proofs.TcpSendReply.
 From SV Require Import Props.C05.
 
 Check (C05_invariant_initially : forall rxs txs cc ts s,
@@ -107,6 +107,9 @@ Check (C05_window_scaled_as_negotiated : forall cx g s e s' res tags p,
   inv g s -> ctx_ok cx -> tcp_dispatch cx s e = Ok (s', res, tags) -> disp_pkt res = Some p ->
   r_control (snd p) <> CSyn ->
   r_window_len (snd p) = u16_try (shr (rb_window (s_rx_buffer s)) (s_remote_win_shift s))).
+
+Check (C05_replies_carry_no_data : forall cx s ip r s' o tags,
+  iface_tcp_ingress cx s ip r = Ok (s', o, tags) -> reply_shape o).
 
 Check (C05_dispatch_no_panic : forall cx g s e,
   inv g s -> ctx_ok cx -> (exists o, tcp_last_scaled_window s = Ok o) ->
